@@ -278,7 +278,8 @@ def worker(args):
             out["sub"][sc.name] = exp
             if fail is not None and out["fail"] is None:
                 case, v = fail
-                out["fail"] = {"subcheck": sc.name, "case": jsonable(case), "message": v.msg,
+                out["fail"] = {"subcheck": getattr(v, "subcheck", sc.name),
+                               "case": jsonable(case), "message": v.msg,
                                "signature": v.sig, "detail": jsonable(v.detail)}
         return out
     except HarnessError as e:
@@ -286,6 +287,59 @@ def worker(args):
     except Exception as e:  # noqa
         return {"shard": shard, "sub": {}, "fail": None,
                 "error": "".join(traceback.format_exception(type(e), e, e.__traceback__))}
+
+
+def fuzz_subcheck(name, target, quick_runs=0, thorough_runs=20000):
+    """A sub-check that drives `target`'s strategy + judge with atheris (coverage-guided).
+
+    Runs one libFuzzer process per shard (own seed, own empty corpus) in a subprocess;
+    skipped when atheris is not importable or the tier's budget is 0."""
+    import subprocess
+    import tempfile
+
+    def custom(sc, rec, n_examples, hseed, tier, known):
+        runs = quick_runs if tier == "quick" else thorough_runs
+        if not runs:
+            return None
+        try:
+            import atheris  # noqa
+        except ImportError:
+            rec.begin({"note": "atheris not available"})
+            rec.event("atheris unavailable - fuzz tier skipped")
+            return None
+        tmp = tempfile.mkdtemp(prefix="verif-fuzz.", dir="/var/tmp")
+        out = os.path.join(tmp, "result.json")
+        try:
+            envv = dict(os.environ)
+            envv["PYTHONPATH"] = os.pathsep.join([env.VERIF, env.DEPS, envv.get("PYTHONPATH", "")])
+            p = subprocess.run(
+                [sys.executable, "-m", "engine.fuzz_entry", rec.prop, target, str(runs),
+                 str(hseed % (2 ** 31 - 1) + 1), out],
+                cwd=env.VERIF, env=envv, stdout=subprocess.PIPE, stderr=subprocess.STDOUT,
+                text=True, timeout=3600)
+            stats = {}
+            if os.path.exists(out + ".stats"):
+                stats = json.load(open(out + ".stats"))
+            rec.evaluations += int(stats.get("execs", 0))
+            rec.comparisons += int(stats.get("valid", 0))
+            for i in range(int(stats.get("nontrivial", 0))):
+                rec.nontrivial_hashes.add("fuzz-%d-%d" % (hseed, i))
+            rec.samples.extend(stats.get("samples", [])[:1])
+            rec.classes["fuzz execs"] = rec.classes.get("fuzz execs", 0) + int(stats.get("execs", 0))
+            if p.returncode == 77 and os.path.exists(out):
+                fail = json.load(open(out))
+                v = Violation(fail["message"] + " [found by atheris]",
+                              "%s/%s" % (target, fail["signature"].split("/", 1)[-1]))
+                v.subcheck = target  # replay through the sub-check whose judge was used
+                return (fail["case"], v)
+            if p.returncode not in (0, 77):
+                raise HarnessError("fuzz process failed (%d): %s" % (p.returncode, p.stdout[-1500:]))
+            return None
+        finally:
+            import shutil
+            shutil.rmtree(tmp, ignore_errors=True)
+
+    return SubCheck(name, None, None, quick=1, thorough=1, kind="custom", custom_fn=custom)
 
 
 def write_replay(prop, fail):
